@@ -109,12 +109,29 @@ type Options struct {
 	SetupID  string
 }
 
-// Start creates and starts a transport for the accessories (first one is the bridge / main accessory).
+// Start creates and starts a transport for the accessories (first one is the bridge / main accessory). A start
+// that fails for an environmental reason (no free port) is retried; it never counts as a verdict.
 func Start(o Options, a *accessory.Accessory, as ...*accessory.Accessory) (*World, error) {
+	var lastErr error
+	for attempt := 0; attempt < 20; attempt++ {
+		w, err, retry := start1(o, a, as...)
+		if err == nil {
+			return w, nil
+		}
+		lastErr = err
+		if !retry {
+			break
+		}
+		time.Sleep(time.Duration(50*(attempt+1)) * time.Millisecond)
+	}
+	return nil, lastErr
+}
+
+func start1(o Options, a *accessory.Accessory, as ...*accessory.Accessory) (w *World, err error, retry bool) {
 	cfg := hc.Config{StoragePath: o.Dir, Pin: o.Pin, SetupId: o.SetupID}
 	t, err := hc.NewIPTransport(cfg, a, as...)
 	if err != nil {
-		return nil, err
+		return nil, err, false
 	}
 	if o.Snapshot {
 		t.CameraSnapshotReq = func(width, height uint) (*image.Image, error) {
@@ -122,20 +139,32 @@ func Start(o Options, a *accessory.Accessory, as ...*accessory.Accessory) (*Worl
 			return &img, nil
 		}
 	}
-	w := &World{T: t, Dir: o.Dir, Pin: o.Pin}
-	go t.Start()
+	w = &World{T: t, Dir: o.Dir, Pin: o.Pin}
+	failed := make(chan string, 1)
+	go func() {
+		defer func() {
+			if p := recover(); p != nil {
+				failed <- fmt.Sprint(p)
+			}
+		}()
+		t.Start()
+	}()
 	deadline := time.Now().Add(10 * time.Second)
 	for {
 		if p := t.VerifPort(); p != "" {
 			w.Addr = "127.0.0.1:" + p
-			break
+			return w, nil, false
+		}
+		select {
+		case msg := <-failed:
+			return nil, fmt.Errorf("transport start failed: %s", msg), true
+		default:
 		}
 		if time.Now().After(deadline) {
-			return nil, fmt.Errorf("transport did not start")
+			return nil, fmt.Errorf("transport did not start"), true
 		}
 		time.Sleep(50 * time.Microsecond)
 	}
-	return w, nil
 }
 
 // Stop stops the transport without waiting for the mDNS goodbye.
